@@ -88,6 +88,31 @@ def validate_translation(T):
     return {"error": (p.stderr or p.stdout)[-800:]}
 
 
+def reuse_conditions(k=1, stride=4, T=300):
+    """the same Parser / matcher / builder first parses other documents (accepted, rejected, ending inside a doc string,
+    with the same faults at the same lines), then the symbolic one: results must equal those of fresh instances"""
+    from kit import specparse
+    from kit.runner import Cond
+    from kit.pdrive import OTHER, FEATURE, STEP, DOCA, TAGBAD, SCENARIO, ROW1, ROW2
+    fn = {1: "agree1", 2: "agree2", 3: "agree3"}
+    cs = []
+    seen = set()
+    i = 0
+    for key, seq in specparse.prefixes():
+        if tuple(seq) in seen:
+            continue
+        seen.add(tuple(seq))
+        i += 1
+        if i % stride:
+            continue
+        before = [seq + [OTHER] * k, seq + [FEATURE] * k, [FEATURE, SCENARIO, STEP, DOCA, OTHER], seq + [TAGBAD] * k,
+                  [FEATURE, SCENARIO, STEP, ROW1, ROW2], seq + [STEP] * k]
+        for stop in (False, True):
+            cs.append(Cond("harness.pdrv", fn[k], {"prefix": seq, "k": k, "stop": stop, "before": before}, T=T,
+                           label="pdrv.%s[reuse,%sprefix=%s]" % (fn[k], "stop," if stop else "", ",".join(map(str, seq)))))
+    return cs
+
+
 def pdrv_conditions(select="all", k_all=1, k_tags=2, stop_too=True, T1=120, T2=400, T3=2400, extra=(), tag_stride=1, k_tags_rest=1):
     """CrossHair conditions on the real Parser: one per (prefix into a grammar configuration, K symbolic kinds)."""
     from kit import specparse
